@@ -62,6 +62,40 @@ def _reaches_control(f, v, uses, depth=0, seen=None):
     return None
 
 
+_CALLERS = {}
+
+
+def _callers_bound(m, f, k, w):
+    """does every call site of the internal function f pass, as argument k, a value whose guard-implied range fits w bits?"""
+    from . import ranges
+    key = id(m)
+    if key not in _CALLERS:
+        idx = {}
+        for g in m.defined():
+            for c in g.calls():
+                if c.callee:
+                    idx.setdefault(c.callee, []).append((g, c))
+        _CALLERS[key] = idx
+    sites = _CALLERS[key].get(f.name, [])
+    if not sites:
+        return False
+    for g, c in sites:
+        if k >= len(c.ops):
+            return False
+        a = c.ops[k]
+        cv = ir.const_int(a)
+        if cv is not None:
+            if cv >= (1 << w):
+                return False
+            continue
+        if not ir.is_local(a):
+            return False
+        lo, hi = ranges.Ranges(g, wide=False).at(a, c.block.name)
+        if hi >= (1 << w):
+            return False
+    return True
+
+
 def scan_truncations(m, only_repo=True, files=None):
     """truncations of a size_t-derived value to 32 bits or fewer whose operand is
     not bounded (by the guards that dominate it, type widths included) to the
@@ -91,6 +125,8 @@ def scan_truncations(m, only_repo=True, files=None):
             lo, hi = RG.at(i.ops[0], i.block.name)
             if hi < (1 << w):
                 continue
+            if f.internal and i.ops[0] in f.params and _callers_bound(m, f, f.params.index(i.ops[0]), w):
+                continue        # a file-local helper: every caller passes a value that fits the narrower type
             if uses is None:
                 uses = f.uses()
             sink = _reaches_control(f, i.id, uses)
